@@ -309,6 +309,12 @@ class Ctx:
                 keys = set(filter(None, got[0].split(":", 2)[2].split(",")))
                 present = test.left.value in keys
                 return present == isinstance(test.ops[0], ast.In)
+            sub = [f for f in st.facts if f.startswith(
+                f"kwsub:{test.comparators[0].id}:")]
+            if sub:     # upper bound of the keys: only absence is certain
+                keys = set(filter(None, sub[0].split(":", 2)[2].split(",")))
+                if test.left.value not in keys:
+                    return isinstance(test.ops[0], ast.NotIn)
         if isinstance(test, ast.Compare) and len(test.ops) == 1 and isinstance(
                 test.ops[0], (ast.In, ast.NotIn)):
             slot = self.slot_of(test.comparators[0])
@@ -324,6 +330,38 @@ class Ctx:
             if st is None:
                 return None
             st = self.stmt(s, st)
+            if st is not None and not isinstance(
+                    s, (ast.If, ast.For, ast.While, ast.Try, ast.With)):
+                st = self._kill_kw_facts(s, st)
+        return st
+
+    @staticmethod
+    def _kill_kw_facts(s: ast.AST, st: State) -> State:
+        """A dictionary whose keys were recorded is stored into / updated:
+        the recorded key set is stale."""
+        if not any(f.startswith(("kwkeys:", "kwsub:")) for f in st.facts):
+            return st
+        touched = set()
+        for n in ast.walk(s):
+            if isinstance(n, ast.Subscript) and isinstance(
+                    n.ctx, (ast.Store, ast.Del)) and isinstance(
+                    n.value, ast.Name):
+                touched.add(n.value.id)
+            elif isinstance(n, ast.Call) and isinstance(
+                    n.func, ast.Attribute) and isinstance(
+                    n.func.value, ast.Name) and n.func.attr in (
+                    "update", "setdefault", "pop", "popitem", "clear",
+                    "__setitem__", "__delitem__"):
+                touched.add(n.func.value.id)
+            elif isinstance(n, ast.AugAssign) and isinstance(
+                    n.target, ast.Name):
+                touched.add(n.target.id)
+        if not touched:
+            return st
+        st = st.copy()
+        st.facts = frozenset(
+            f for f in st.facts if not (f.startswith(("kwkeys:", "kwsub:"))
+                                        and f.split(":")[1] in touched))
         return st
 
     def stmt(self, s: ast.AST, st: State) -> State | None:
@@ -355,6 +393,17 @@ class Ctx:
             st = self.expr(s.value, st)
             for t in s.targets:
                 st = self.assign(t, s.value, st, s)
+            # keys of a dictionary literal that is later forwarded as **kwargs
+            if len(s.targets) == 1 and isinstance(s.targets[0], ast.Name):
+                alts = _dict_literal_keys(s.value)
+                if alts is not None:
+                    name = s.targets[0].id
+                    if len({frozenset(a) for a in alts}) == 1:
+                        st = st.with_facts(
+                            f"kwkeys:{name}:{','.join(sorted(alts[0]))}")
+                    else:
+                        st = st.with_facts("kwsub:%s:%s" % (name, ",".join(
+                            sorted(set().union(*alts)))))
             return st
         if isinstance(s, ast.AnnAssign):
             if s.value is not None:
@@ -727,16 +776,22 @@ class Ctx:
                         and k.arg not in params]
             stars = [k.value for k in e.keywords if k.arg is None]
             keys = set(explicit)
-            known = True
+            known = exact = True
             for sv in stars:
                 got = [f for f in st.facts if f.startswith(
                     f"kwkeys:{self.canon(sv, st)}:")]
+                sub = [f for f in st.facts if f.startswith(
+                    f"kwsub:{self.canon(sv, st)}:")]
                 if got:
                     keys |= set(filter(None, got[0].split(":", 2)[2].split(",")))
+                elif sub:
+                    keys |= set(filter(None, sub[0].split(":", 2)[2].split(",")))
+                    exact = False
                 else:
                     known = False
             if known:
-                st = st.with_facts(f"kwkeys:{kwname}:{','.join(sorted(keys))}")
+                st = st.with_facts(("kwkeys" if exact else "kwsub")
+                                   + f":{kwname}:{','.join(sorted(keys))}")
         # callee works on a state whose aliases are hidden
         inner = State(st.facts, st.written, {})
         out = self.w.func(target, inner, argmap, None)
@@ -749,9 +804,30 @@ class Ctx:
         return State(frozenset(kept), out.written, dict(st.alias))
 
 
+def _dict_literal_keys(e: ast.AST) -> list[set[str]] | None:
+    """Key sets of the alternatives of a dictionary literal / conditional
+    expression of dictionary literals with constant string keys."""
+    if isinstance(e, ast.Dict):
+        keys = set()
+        for k in e.keys:
+            if not (isinstance(k, ast.Constant) and isinstance(k.value, str)):
+                return None
+            keys.add(k.value)
+        return [keys]
+    if isinstance(e, ast.Call) and call_name(e) == "dict" and not e.args and \
+            all(k.arg for k in e.keywords):
+        return [{k.arg for k in e.keywords}]
+    if isinstance(e, ast.IfExp):
+        a, b = _dict_literal_keys(e.body), _dict_literal_keys(e.orelse)
+        if a is None or b is None:
+            return None
+        return a + b
+    return None
+
+
 def _fact_exprs(f: str) -> set[str]:
     kind, _, rest = f.partition(":")
-    if kind == "kwkeys":
+    if kind in ("kwkeys", "kwsub"):
         return {"@kw"}
     if kind == "key":
         _, _, rest = rest.partition(":")
